@@ -60,6 +60,10 @@ def replay(seq, N, mode="ess"):
 
 def main():
     ck = core.Check("C11", "model_checking")
+    if ck.args.replay:
+        from vlib import sysrun as _sr
+
+        _sr.replay(ck, "C11", ck.args.replay)
     core.import_repo()
     import warnings
 
